@@ -36,6 +36,14 @@ EventOK(e) ==
     [] e.ev = "cnf_cond" ->
          /\ SetsOf(e.out) = SetsOf(CondCnf(e.cnf, e.lit))
          /\ e.nv = MaxVar(e.out) + 1
+    [] e.ev = "cnf_misc" ->
+         LET cvars(c) == {LitVar(x) : x \in LitSet(c)}
+             allv == UNION {cvars(e.cnf[i]) : i \in 1 .. Len(e.cnf)}
+             \* one vertex per variable 0 .. nv-1; a clique (with its loops, as coded: j runs from i) per clause
+             E == UNION {{<<IF a < b THEN a ELSE b, IF a < b THEN b ELSE a>> : a \in cvars(e.cnf[i]), b \in cvars(e.cnf[i])} : i \in 1 .. Len(e.cnf)}
+         IN /\ \A v \in 0 .. (Len(e.in) - 1) : e.in[v + 1] = (v \in allv)
+            /\ e.nodes = e.nv
+            /\ {<<e.edges[i][1], e.edges[i][2]>> : i \in 1 .. Len(e.edges)} = E /\ Len(e.edges) = Cardinality(E)
     [] e.ev = "cnf_wmc" ->
          /\ e.val = Comps(WMC(e.sr, e.p, EvalCnf(e.cnf), e.w, WX(e.wexp, e.nv), e.nv), e.nv * e.wexp)
          /\ (IF "den" \in DOMAIN e THEN e.den = 1 ELSE TRUE)
